@@ -3,6 +3,7 @@ package simhttp
 import (
 	"fmt"
 	"net/http"
+	"strconv"
 	"verif/sim/core"
 )
 
@@ -80,6 +81,11 @@ func (n *Net) doCanned(c *Call, req *http.Request) (*http.Response, error) {
 		Header:        e.RespHeader.Clone(),
 		ContentLength: -1,
 		Request:       req,
+	}
+	if cl := e.RespHeader.Get("Content-Length"); cl != "" {
+		if n, err := strconv.ParseInt(cl, 10, 64); err == nil && n >= 0 {
+			resp.ContentLength = n
+		}
 	}
 	resp.Body = &respBody{e: e, resp: resp}
 	e.resp = resp
